@@ -163,6 +163,32 @@ MergeOp(g, h, left, right) ==
    ok |-> Cardinality(DOMAIN r.m) = Cardinality(h.present),
    missed |-> h.present \ DOMAIN r.m]
 
+(* ----------------------------- script deployment ----------------------- *)
+\* A program is a sequence of commands [c |-> "ADD", v], [c |-> "BIND", v1, v2, a], [c |-> "PUT", v, d]; a vertex
+\* reference is [k |-> "lit", id] or [k |-> "var", name].  Deploying it is the textual-order fold of the core operators;
+\* each variable stands for ONE next_id() result, taken at its first mention (a BIND evaluates v1 before v2).  The
+\* variable table belongs to one deployment.  `lim` turns FALSE when a step leaves the limits / preconditions.
+ResolveRef(st, ref) ==
+  IF ref.k = "lit" THEN [g |-> st.g, tab |-> st.tab, id |-> ref.id, lim |-> st.lim]
+  ELSE IF ref.name \in DOMAIN st.tab THEN [g |-> st.g, tab |-> st.tab, id |-> st.tab[ref.name], lim |-> st.lim]
+  ELSE IF ~NextIdOk(st.g) THEN [g |-> st.g, tab |-> st.tab, id |-> 0, lim |-> FALSE]
+  ELSE [g |-> NextIdOp(st.g), tab |-> (ref.name :> NextIdOf(st.g)) @@ st.tab, id |-> NextIdOf(st.g), lim |-> st.lim]
+DeployStep(st, cmd) ==
+  IF ~st.lim THEN st
+  ELSE IF cmd.c = "ADD" THEN
+       LET r == ResolveRef(st, cmd.v) IN
+       IF r.lim /\ AddOk(r.g, r.id) THEN [g |-> AddOp(r.g, r.id), tab |-> r.tab, lim |-> TRUE] ELSE [st EXCEPT !.lim = FALSE]
+  ELSE IF cmd.c = "BIND" THEN
+       LET r1 == ResolveRef(st, cmd.v1)
+           r2 == ResolveRef([g |-> r1.g, tab |-> r1.tab, lim |-> r1.lim], cmd.v2) IN
+       IF r2.lim /\ r1.id \in IdsOf(r2.g) /\ r2.id \in IdsOf(r2.g) /\ BindOk(r2.g, r1.id, r2.id, cmd.a)
+       THEN [g |-> BindOp(r2.g, r1.id, r2.id, cmd.a), tab |-> r2.tab, lim |-> TRUE] ELSE [st EXCEPT !.lim = FALSE]
+  ELSE LET r == ResolveRef(st, cmd.v) IN
+       IF r.lim /\ PutOk(r.g, r.id) THEN [g |-> PutOp(r.g, r.id, cmd.d), tab |-> r.tab, lim |-> TRUE] ELSE [st EXCEPT !.lim = FALSE]
+RECURSIVE DeployFrom(_, _, _)
+DeployFrom(st, prog, i) == IF i > Len(prog) THEN st ELSE DeployFrom(DeployStep(st, prog[i]), prog, i + 1)
+DeployOp(g, prog) == DeployFrom([g |-> g, tab |-> <<>>, lim |-> TRUE], prog, 1)
+
 (* ----------------------------- shape predicates ------------------------ *)
 \* the graph, seen from root r, is a tree of present vertices covering everything present
 RECURSIVE Below(_, _, _)
